@@ -302,6 +302,8 @@ def big_scope(rng, n, nested=True):
         out.append('function inner(q) { var loc0, loc1; try { loc0 = %s; } catch (e) { loc1 = e + %s; } '
                    'return function () { return q + loc0 + %s; }; }' % (picks[0], picks[1], ' + '.join(picks[2:])))
         out.append('var fe = function named() { return named(%s); };' % picks[3])
+    # a catch clause directly in the big scope: its parameter is named after all the others (keyword collisions)
+    out.append('try { %s; } catch (err) { %s = err; try { err; } catch (err2) { err2 + err; } }' % (names[0], names[-1]))
     out.append('return p0 + p1; }')
     out.append('big(1, 2);')
     return '\n'.join(out)
